@@ -837,6 +837,25 @@ Section Cache.
   Qed.
 End Cache.
 
+(* KNOWN FINDING (class symboliser-not-injective): the premise symb_inj fails
+   for the real runtime: all instantiations of a generic function are named
+   F[...], with equal line and pc offsets when they share code shape, so two
+   different pc lists get one name.  Model witness: any symboliser that sends
+   two different pcs to the same frame. *)
+Definition generic_frame : frame :=
+  mkFrame [112; 47; 112; 97; 46; 71; 91; 46; 46; 46; 93] true 1 30.    (* p/pa.G[...] :+1,+0x1e *)
+
+Lemma different_stack_same_name_refuted :
+  let symb := fun pcs : list N => map (fun _ : N => generic_frame) pcs in
+  let name := [115; 116] in
+  [1] <> [2] /\ (forall p, Forall id_frame (symb p)) /\
+  is_truncated name (symb [1]) = false /\ is_truncated name (symb [2]) = false /\
+  encode_stack symb [1] name = encode_stack symb [2] name.
+Proof.
+  cbv zeta. split; [discriminate|]. split; [|repeat split; vm_compute; reflexivity].
+  intro p. apply Forall_map. apply Forall_forall. intros x _. vm_compute. reflexivity.
+Qed.
+
 (* ------------------------------------------------------------ statements with the literal bound *)
 
 Lemma length_bound_lit prefix fs : N.of_nat (length (encode_frames prefix fs)) <= 4096.
